@@ -183,6 +183,14 @@ func runTruncate(c *core.Ctx, codec string) {
 	}
 	fastq := c.Idx%2 == 1
 	text := seqText(c.Rng, n, fastq)
+	// one file in four starts with a UTF-8 byte order mark (a file saved by a Windows editor and
+	// compressed afterwards): the readers skip it, and a stream that breaks right behind it is as
+	// broken as any other
+	bom := c.Idx%4 == 3
+	if bom {
+		text = append([]byte("\xef\xbb\xbf"), text...)
+		c.Count("files_with_byte_order_mark", 1)
+	}
 	enc := codec
 	if codec == "xz" && c.Idx%2 == 1 {
 		enc = "xz-multiblock"
@@ -257,6 +265,23 @@ func runTruncate(c *core.Ctx, codec string) {
 		if !have[k] && len(pts) < c.Pick(120, 6000) {
 			pts = append(pts, k)
 			have[k] = true
+		}
+	}
+	if bom {
+		// the cuts after which the decoder delivers the byte order mark (or a part of it) and nothing
+		// else before it fails
+		added := 0
+		for k := 6; k < len(comp) && k < 4096 && added < 24; k++ {
+			if d := gen.DecodedBeforeError(codec, comp[:k]); d >= 1 && d <= 3 {
+				if !have[k] {
+					pts = append(pts, k)
+					have[k] = true
+				}
+				added++
+				c.Count("cuts_right_behind_the_byte_order_mark", 1)
+			} else if d > 3 {
+				break
+			}
 		}
 	}
 	isStart := map[int]bool{}
